@@ -88,4 +88,44 @@ for s in range(1, NS + 1):
 write("mpmc", "mass-close-senders.ndjson",
       {"NS": NS, "NR": 2, "Cap": 1, "Wk": [1, 2], "MaxV": 60, "MaxH": 1, "Shared": False, "WithStream": False, "WithCancel": True},
       ops, "NS senders parked on a full channel released by one close()")
+
+# ---- large contents: heap buffers beyond their first allocation / growth steps (8, 16, 32 slots)
+BIG = 40
+for shared in (False, True):
+    ops = [{"op": "try_send", "v": v} for v in range(1, BIG + 1)]
+    ops.append({"op": "try_send", "v": BIG + 1})            # full
+    ops += [{"op": "try_recv"} for _ in range(10)]
+    ops += [{"op": "try_send", "v": v} for v in range(BIG + 1, BIG + 11)]
+    ops.append({"op": "drop_sender"} if shared else {"op": "close"})
+    ops += [{"op": "try_recv"} for _ in range(BIG + 1)]
+    if shared:
+        ops += [{"op": "drop_receiver"}, {"op": "destroy"}]
+    write("mpmc", "mass-buffered-%s.ndjson" % ("shared" if shared else "borrowed"),
+          {"NS": 2, "NR": 2, "Cap": BIG, "Wk": [1, 2], "MaxV": 60, "MaxH": 1, "Shared": shared, "WithStream": False, "WithCancel": True},
+          ops, "%d values buffered at once in a heap buffer" % BIG,
+          flavours=["shared-growing", "shared-fixed"] if shared else ["pl-fixed", "pl-growing"])
+ops = [{"op": "push", "v": v} for v in range(1, BIG + 1)]
+ops += [{"op": "query"}]
+ops += [{"op": "pop"} for _ in range(20)]
+ops += [{"op": "push", "v": v} for v in range(BIG + 1, BIG + 21)]
+ops += [{"op": "query"}]
+ops += [{"op": "pop"} for _ in range(25)]
+ops += [{"op": "drop_buffer"}]
+write("ring", "mass-fill.ndjson", {"Cap": BIG, "MaxV": 80}, ops,
+      "%d elements in a heap ring buffer, wrap-around, drop with 15 left" % BIG, flavours=["fixed", "growing"])
+
+# ---- boundary values: requests at the upper end of usize (codes >= INF stand for usize::MAX - (n - INF))
+INF = 2000000000
+for fair in (True, False):
+    ops = [{"op": "try_acquire", "n": INF}, {"op": "try_acquire", "n": INF + 1},
+           {"op": "create", "f": 1, "n": INF}, {"op": "poll", "f": 1, "w": "A"},
+           {"op": "create", "f": 2, "n": 1}, {"op": "poll", "f": 2, "w": "A"},
+           {"op": "release", "n": 1}, {"op": "poll", "f": 1, "w": "A"}, {"op": "poll", "f": 2, "w": "B"},
+           {"op": "permits"},
+           {"op": "drop", "f": 1}, {"op": "poll", "f": 2, "w": "A"}, {"op": "permits"}, {"op": "drop", "f": 2},
+           {"op": "create", "f": 3, "n": INF + 2}, {"op": "poll", "f": 3, "w": "A"}, {"op": "release", "n": 3},
+           {"op": "poll", "f": 3, "w": "A"}, {"op": "drop", "f": 3}, {"op": "permits"}]
+    write("semaphore", "huge-requests-%s.ndjson" % ("fair" if fair else "unfair"),
+          {"K": 3, "Fair": fair, "Wk": [1, 2], "Init0": 2, "MaxReq": 1, "Reqs": [0, 1], "MaxP": 8, "MaxRels": 4},
+          ops, "requests near usize::MAX can never be granted")
 print("mass histories written")
